@@ -530,6 +530,10 @@ struct Hist<'a> {
     bad: Vec<String>,
     hits: Vec<String>,
     serial_ctr: u32,
+    /// the peer has written only the first part (with the descriptors) of its last frame; the rest is written when the
+    /// client has polled once (inside the `recv` step) or before the peer writes anything else
+    pending_rest: Option<Vec<u8>>,
+    split_ctr: usize,
 }
 
 fn unmarshal_jth(body: &BodyE, j: usize) -> Result<UnixFd, String> {
@@ -589,6 +593,33 @@ impl<'a> Hist<'a> {
             bad: Vec::new(),
             hits: Vec::new(),
             serial_ctr: 1000,
+            pending_rest: None,
+            split_ctr: 0,
+        }
+    }
+
+    /// the peer writes what it still holds back of its last frame
+    fn flush_rest(&mut self) {
+        if let Some(rest) = self.pending_rest.take() {
+            peer::send_with_fds(&self.server, &rest, &[]);
+        }
+    }
+
+    /// The peer writes one frame with its descriptors - every second time in TWO pieces: the first piece (cut anywhere,
+    /// also inside the fixed header) carries the descriptors, the rest is held back until the client has polled once
+    /// with `Timeout::Nonblock` (see `exec_recv`). For the descriptor table this is the same as a whole frame: the model
+    /// does not see the cut. A receive path that drops or mixes up descriptors across a timed-out call shows here.
+    fn peer_write_frame(&mut self, frame: &[u8], fds: &[RawFd]) {
+        self.flush_rest();
+        self.split_ctr += 1;
+        if self.split_ctr % 2 == 0 && frame.len() > 2 {
+            // every third cut lies inside the 16-byte fixed header, the others anywhere
+            let cut = if self.split_ctr % 6 == 0 { 1 + (self.split_ctr / 6) % 15.min(frame.len() - 1) } else { 1 + (self.split_ctr * 7 + frame.len() * 3) % (frame.len() - 1) };
+            peer::send_with_fds(&self.server, &frame[..cut], fds);
+            self.pending_rest = Some(frame[cut..].to_vec());
+            self.hits.push(format!("peer_frame_split_{}", if cut < 16 { "in_fixed_header" } else { "later" }));
+        } else {
+            peer::send_with_fds(&self.server, frame, fds);
         }
     }
 
@@ -1005,7 +1036,7 @@ impl<'a> Hist<'a> {
             self.hits.push("send_with_taken_descriptor(documented_limit)".into());
         }
         // echo it back: the kernel queues it (with the same open files) for the client
-        peer::send_with_fds(&self.server, &bytes, &fds);
+        self.peer_write_frame(&bytes, &fds);
         for n in &fds {
             let _ = nix::unistd::close(*n);
         }
@@ -1053,7 +1084,7 @@ impl<'a> Hist<'a> {
         };
         drop(dummies);
         let raw: Vec<RawFd> = files.iter().map(|f| self.pool.open(*f)).collect();
-        peer::send_with_fds(&self.server, &frame, &raw);
+        self.peer_write_frame(&frame, &raw);
         for n in raw {
             let _ = nix::unistd::close(n);
         }
@@ -1063,7 +1094,14 @@ impl<'a> Hist<'a> {
     }
 
     fn exec_recv(&mut self) -> (String, After) {
-        let r = self.conn.recv.get_next_message(Timeout::Nonblock);
+        let mut r = self.conn.recv.get_next_message(Timeout::Nonblock);
+        if self.pending_rest.is_some() && matches!(r, Err(rustbus::connection::Error::TimedOut)) {
+            // the frame at the front is the one the peer has written only partly: the poll above has pulled the first piece
+            // (and the descriptors) into the connection and timed out; now the rest arrives
+            self.hits.push("recv_poll_timed_out_on_partial_frame".into());
+            self.flush_rest();
+            r = self.conn.recv.get_next_message(Timeout::Nonblock);
+        }
         let fl = self.inflight.front();
         match r {
             Ok(msg) => {
